@@ -95,7 +95,7 @@ class Rational(Primitive):
         """
         if self.is_integer():
             return self._value.numerator
-        raise _any.InvalidOperandError("Rational %s is not an integer" % self._value)
+        raise _any.InvalidOperandError("Rational %s is not an integer" % self)
 
     def is_integer(self) -> bool:
         """Whether the demonimator equals one."""
